@@ -79,3 +79,15 @@ Proof.
     pose proof (started_if_delivered unicast pause_table c es1 (lsys0 c) y1 H (fun _ => eq_refl) Hp) as Ht.
     rewrite Ht in Hc. discriminate.
 Qed.
+
+Lemma pt_delay_is_configured :
+  forall unicast c es y, lsys_run unicast pause_table c (lsys0 c) es = LOk y ->
+  forall k dl un run cut, In (RDelay k dl un run cut) (y_log y) ->
+    dl = delay_formula c k /\ 1 <= k <= p_count (lc_policy c) /\
+    (p_jitter (lc_policy c) = false -> dl = delay_spec (lc_policy c) (N.to_nat (k - 1))).
+Proof.
+  intros unicast c es y H k dl un run cut Hin.
+  destruct (delay_is_configured unicast pause_table c es y H k dl un run cut Hin) as [Hd Hk].
+  split; [exact Hd|]. split; [exact Hk|]. intros Hj. rewrite Hd. unfold delay_formula. rewrite Hj.
+  cbn [Proofs.Backoff.jit]. apply Proofs.Backoff.delays_nth. lia.
+Qed.
